@@ -27,6 +27,7 @@ From FT Require Proofs.CoreTieBundle.
 From FT Require Proofs.AnnotatorsTie.
 From FT Require Model.EditCtor Proofs.EditCtor.
 From FT Require Proofs.EditCtorDict.
+From FT Require Proofs.EditSessionsToggle.
 Import ListNotations.
 Open Scope Z_scope.
 
@@ -242,6 +243,29 @@ Theorem C08_sessions_from_prepared_registry : forall r0 ops,
   forall pre post, ops = pre ++ post -> WF (run (FT.Model.EditCtor.construct_dict r0) pre).
 Proof. exact EditCtorDict.construct_dict_session_WF. Qed.
 
+(* ---- sessions that MIX edits with feature switching (Tracks.enable_features with recomputation /
+        disable_features of the non-id features; switch_ok excludes the two id keys - Proofs/ToggleRefuted.v
+        shows why - and registration without recomputation):
+        C08_switch_step: one switch call keeps the complete invariant WF and the side facts (side_ok =
+        cfg_keys, reg_ok, rp_disjoint, rp_decl) and touches neither the two history stacks nor the array; a
+        refused call returns the state itself.
+        C08_sessions_with_switching_partial: every state reached along   switches ++ (an editing session over
+        the whole interface, undo / redo included) ++ (any mix of switches and edits in which nothing is undone
+        or redone)   is well formed.  "partial": undo / redo AFTER a switch is not covered unconditionally.
+        C08_sessions_with_switching_conditional: the statement for ANY interleaving, from the one hypothesis
+        that is still open (transport_along: the recorded actions stay consistent transitions between the
+        switched timeline states - a simulation of the inverses between two feature tables).
+        Proofs/EditSessionsToggle.v also contains a refutation of the unconditional statement for a configuration
+        the implementation cannot be in (regionprops keys declared without a label array): the model's
+        hypotheses, not the code, are too weak there; with an array no counter-example is known and the
+        correspondence runs such sessions on every check (toggles in C08 / C09 / C10). ---- *)
+Theorem C08_switch_step : ltac:(let t := type of @FT.Proofs.EditSessionsToggle.switch_step2 in exact t).
+Proof. exact @FT.Proofs.EditSessionsToggle.switch_step2. Qed.
+Theorem C08_sessions_with_switching_partial : ltac:(let t := type of @FT.Proofs.EditSessionsToggle.session_toggle_sandwich_reachable_WF in exact t).
+Proof. exact @FT.Proofs.EditSessionsToggle.session_toggle_sandwich_reachable_WF. Qed.
+Theorem C08_sessions_with_switching_conditional : ltac:(let t := type of @FT.Proofs.EditSessionsToggle.session_toggle_reachable_WF_conditional in exact t).
+Proof. exact @FT.Proofs.EditSessionsToggle.session_toggle_reachable_WF_conditional. Qed.
+
 Example C08_ex0_fresh :
   seg ex0 = Some sg0 /\ rp_fresh ex0 /\ W_seg ex0 /\ nodes_sane ex0 sg0 /\
   ~ In KTime (rp_act (ft ex0)) /\ ~ In KTrack (rp_act (ft ex0)) /\ ~ In KLin (rp_act (ft ex0)) /\
@@ -295,3 +319,6 @@ Print Assumptions C08_regionprops_update_is_generated.
 Print Assumptions C08_regionprops_compute_is_generated.
 Print Assumptions C08_sessions_from_any_construction.
 Print Assumptions C08_sessions_from_prepared_registry.
+Print Assumptions C08_switch_step.
+Print Assumptions C08_sessions_with_switching_partial.
+Print Assumptions C08_sessions_with_switching_conditional.
